@@ -502,6 +502,55 @@ async def c20_failed_install(w):
     return {"reproduced": recorded, "observed": {"error": repr(err), "records": recs}, "expected": "the package whose installation failed is in no record"}
 
 
+async def c20_entry_updated_meanwhile(w):
+    """install_requirements on the real function while another task replaces config_entry.data (as Home Assistant's
+    async_update_entry does) at the suspension named by the witness: during the requirements scan, or during the install."""
+    import os, tempfile, shutil
+    import custom_components.pyscript.requirements as R
+    hass = await boot()
+    when, allow_after = w.get("when", "during-the-scan"), bool(w.get("allow_after", False))
+    folder = tempfile.mkdtemp(prefix="c20_")
+    updates, installs = [], []
+    try:
+        with open(os.path.join(folder, "requirements.txt"), "w") as f:
+            f.write("c20-no-such-package==1.2.3\n")
+        entry = SimpleNamespace(data={"allow_all_imports": True, "_installed_packages": {}, "hass_is_global": False})
+        new_data = {"allow_all_imports": allow_after, "_installed_packages": {}, "hass_is_global": True}
+        hass.config_entries = SimpleNamespace(async_update_entry=lambda entry=None, data=None: updates.append(dict(data)))
+        loop = asyncio.get_running_loop()
+
+        async def executor_job(fn, *a):
+            r = await loop.run_in_executor(None, fn, *a)
+            if when == "during-the-scan" and getattr(fn, "__name__", "") == "process_all_requirements":
+                entry.data = dict(new_data)
+            return r
+        hass.async_add_executor_job = executor_job
+
+        async def installer(hass_, name, reqs):
+            installs.append(list(reqs))
+            if when == "during-the-install":
+                entry.data = dict(new_data)
+        saved = R.async_process_requirements
+        R.async_process_requirements = installer
+        err = None
+        try:
+            await R.install_requirements(hass, entry, folder)
+        except Exception as e:  # noqa
+            err = repr(e)
+        finally:
+            R.async_process_requirements = saved
+    finally:
+        shutil.rmtree(folder, ignore_errors=True)
+    await shutdown()
+    if when == "during-the-scan" and not allow_after:
+        ok = installs == [] and updates == []
+        want = "nothing installed, nothing written: the entry forbids it when the scan has finished"
+    else:
+        ok = len(installs) == 1 and len(updates) == 1 and updates[0].get("allow_all_imports") is allow_after and updates[0].get("hass_is_global") is True
+        want = "one install; the write-back carries the entry's current data (allow_all_imports=%r, hass_is_global=True) plus the new record" % allow_after
+    return {"reproduced": not ok or err is not None, "observed": {"installs": installs, "written back": updates, "error": err}, "expected": want}
+
+
 async def c20_yaml_import_keeps_record(w):
     """The YAML import flow of the real PyscriptConfigFlow on an existing entry whose data holds pyscript's record of installed
     packages: the record must survive, for YAML-created and UI-created entries."""
